@@ -74,7 +74,8 @@ type vEnvAction struct {
 	name    string
 	enabled func() bool
 	do      func()
-	left    int // how many more times it may be taken
+	left    int  // how many more times it may be taken
+	lazy    bool // a timer: chosen rarely while anything else can move (a timeout is normally far away)
 }
 
 type vEvent map[string]interface{}
@@ -548,8 +549,20 @@ func (s *vSched) choose(cs []vChoice, step int) vChoice {
 		}
 		return s.best(cs)
 	}
-	// 3. uniform random
-	return cs[s.rnd.Intn(len(cs))]
+	// 3. uniform random; lazy environment actions (timers) are taken with low probability while others can move
+	c := cs[s.rnd.Intn(len(cs))]
+	if c.env != nil && c.env.lazy && len(cs) > 1 && s.rnd.Intn(100) < 98 {
+		var rest []vChoice
+		for _, x := range cs {
+			if x.env == nil || !x.env.lazy {
+				rest = append(rest, x)
+			}
+		}
+		if len(rest) > 0 {
+			c = rest[s.rnd.Intn(len(rest))]
+		}
+	}
+	return c
 }
 
 func (s *vSched) best(cs []vChoice) vChoice {
@@ -620,7 +633,7 @@ func (t *vTimerCtl) fire() {
 // AddTimerEnv registers "timer fires" as an environment action (at most `times` firings).
 func (s *vSched) AddTimerEnv(name string, c *connection, write bool, times int) {
 	t := &vTimerCtl{c: c, write: write}
-	s.envs = append(s.envs, &vEnvAction{name: name, left: times,
+	s.envs = append(s.envs, &vEnvAction{name: name, left: times, lazy: true,
 		enabled: func() bool { return t.armedAndWaiting(s) },
 		do: func() {
 			t.fire()
